@@ -279,6 +279,8 @@ namespace optree {
                 DictSetItem(dict, ListGetItem(other_keys, i), py::int_(i));
             }
             if (!DictKeysEqual(expected_keys, dict)) [[unlikely]] {
+                // Sort a copy: `other_keys` is the key list owned by the other treespec.
+                other_keys = py::getattr(other_keys, Py_Get_ID(copy))();
                 TotalOrderSort(other_keys);
                 const auto [missing_keys, extra_keys] = DictKeysDifference(expected_keys, dict);
                 std::ostringstream key_difference_sstream{};
